@@ -4,6 +4,10 @@ import (
 	"bytes"
 	"math/big"
 
+	"github.com/btcsuite/btcd/chaincfg"
+	"github.com/btcsuite/btcd/txscript"
+	"github.com/btcsuite/btcutil"
+
 	"github.com/polynetwork/poly/common"
 	"github.com/polynetwork/poly/native"
 	"github.com/polynetwork/poly/native/service/utils"
@@ -11,7 +15,6 @@ import (
 )
 
 const zz17Kinds = 11
-
 
 // REDEEM_SCRIPT (putBtcRedeemScript) is outside: the accessor first classifies a real BTC multisig script.
 func zz17Record(kind int, tag string) zz17Rec {
@@ -42,7 +45,9 @@ func zz17Record(kind int, tag string) zz17Rec {
 		r.key, r.params = zz17Pick(keys, 0, REDEEM_BIND, 20+len(REDEEM_BIND)+16+len(rk)), [][]byte{rcb, ccb, rk}
 	case 5: // BIND_SIGN_INFO ‖ message (variable)
 		msg := zz17VarBytes(tag+".message", zz17Lens(8, 9, 16))
-		keys := zz17Keys(func(ns *native.NativeService) { putBindSignInfo(ns, msg, &BindSignInfo{BindSignInfo: map[string][]byte{}}) })
+		keys := zz17Keys(func(ns *native.NativeService) {
+			putBindSignInfo(ns, msg, &BindSignInfo{BindSignInfo: map[string][]byte{}})
+		})
 		r.key, r.params = zz17Pick(keys, 0, BIND_SIGN_INFO, 20+len(BIND_SIGN_INFO)+len(msg)), [][]byte{msg}
 	case 6: // BTC_TX_PARAM ‖ redeemKey (variable) ‖ redeemChainId
 		rk := zz17VarBytes(tag+".redeemkey", zz17Lens(8, 9, 16))
@@ -60,7 +65,9 @@ func zz17Record(kind int, tag string) zz17Rec {
 	case 9: // FEE_INFO ‖ chainid ‖ view
 		id, idb := u64(".chainid")
 		view, vb := u64(".view")
-		keys := zz17Keys(func(ns *native.NativeService) { PutFeeInfo(ns, id, view, &FeeInfo{FeeInfo: map[common.Address]*big.Int{}}) })
+		keys := zz17Keys(func(ns *native.NativeService) {
+			PutFeeInfo(ns, id, view, &FeeInfo{FeeInfo: map[common.Address]*big.Int{}})
+		})
 		r.key, r.params = zz17Pick(keys, 0, FEE_INFO, 20+len(FEE_INFO)+16), [][]byte{idb, vb}
 	case 10: // SIDE_CHAIN ‖ chainid, reached through PutRippleExtraInfo (rewrites the side-chain record)
 		id, idb := u64(".chainid")
@@ -84,4 +91,47 @@ func ZZ_C17_SideChainManagerKeys() {
 func ZZ_C17_SideChainManagerKeys_witness() {
 	a, b := zz17Record(1, "a"), zz17Record(10, "b")
 	zzsym.Assert(!bytes.Equal(a.key, b.key), "witness: equal parameters give equal keys")
+}
+
+// ---- a key built inline in a handler: RegisterRedeem's signature tally ---------------------------------------
+// BIND_SIGN_INFO ‖ hash160(redeem) ‖ redeemChainID ‖ contractAddress ‖ contractChainID. The real RegisterRedeem
+// runs with the BTC script classification and the signature verification replaced (spec overrides: the script is
+// a 2-of-n multisig, one new valid signature); two requests whose tallies share a key must agree in all four
+// parameters - otherwise signatures collected for one binding count towards another.
+
+func zzExtractPkScriptAddrs(pkScript []byte, chainParams *chaincfg.Params) (txscript.ScriptClass, []btcutil.Address, int, error) {
+	return txscript.MultiSigTy, nil, 2, nil
+}
+
+func zzVerifyRedeemRegister(param *RegisterRedeemParam, addrs []btcutil.Address) (map[string][]byte, error) {
+	return map[string][]byte{"signer": {1}}, nil
+}
+
+func zz17RedeemRequest(tag string) zz17Rec {
+	p := &RegisterRedeemParam{
+		RedeemChainID:   zzsym.U64(tag + ".redeemchain"),
+		ContractChainID: zzsym.U64(tag + ".contractchain"),
+		Redeem:          zzsym.Bytes(tag+".redeem", 3),
+		CVersion:        0,
+		ContractAddress: zz17VarBytes(tag+".contract", zz17Lens(8, 20)),
+		Signs:           [][]byte{{1}},
+	}
+	sink := common.NewZeroCopySink(nil)
+	p.Serialization(sink)
+	keys := zz17Keys(func(ns *native.NativeService) {
+		ns2 := zzNative(ns.GetCacheDB(), sink.Bytes())
+		_, err := RegisterRedeem(ns2)
+		zzsym.Assert(err == nil, "a first signature for a new binding is accepted")
+	})
+	rk := btcutil.Hash160(p.Redeem)
+	r := zz17Rec{kind: 5}
+	r.key = zz17Pick(keys, 0, BIND_SIGN_INFO, 20+len(BIND_SIGN_INFO)+20+8+len(p.ContractAddress)+8)
+	r.params = [][]byte{rk, utils.GetUint64Bytes(p.RedeemChainID), p.ContractAddress, utils.GetUint64Bytes(p.ContractChainID)}
+	return r
+}
+
+func ZZ_C17_RegisterRedeemKeys() {
+	a, b := zz17RedeemRequest("a"), zz17RedeemRequest("b")
+	zz17Check(utils.SideChainManagerContractAddress, a, b)
+	zzsym.Cover("redeem-pair-done")
 }
